@@ -157,6 +157,74 @@ func runC13(w *World, r *Report) {
 		}
 	}
 
+	// ---- R-C13-4: a failed sub-compile leaves nothing in the parent compiler
+	r.Rule("R-C13-4", "Compiler.Compile closes the compiler (which merges a clone's state into its parent) only on the path where every statement compiled: Close is not deferred, and no call of Close lies on a path to a return of a statement's error", 1)
+
+	if cf := w.ssaFunc(cp, "Compiler.Compile"); cf == nil {
+		r.Anchor("R-C13-4", "compiler.Compiler.Compile")
+	} else {
+		isClose := func(c *ssa.CallCommon) bool {
+			return callID(c) == "internal/language/compiler.Compiler.Close"
+		}
+
+		key := "compiler.Compiler.Compile|Close only after a successful compile"
+		problem := ""
+		nClose := 0
+
+		allInstrs(cf, func(in ssa.Instruction) {
+			switch x := in.(type) {
+			case *ssa.Defer:
+				if isClose(x.Common()) {
+					problem = "Close is deferred (" + w.pos(x.Pos()) + "): it also runs when a statement failed to compile, and for a cloned compiler Close copies the half-compiled state (open scopes, unused-variable records) into the parent — one @test that does not compile then fails the whole file"
+				}
+
+				if mc := calleeFunction(x.Common()); mc != nil && mc.Parent() == cf {
+					allInstrs(mc, func(i2 ssa.Instruction) {
+						if c2, ok := i2.(*ssa.Call); ok && isClose(c2.Common()) {
+							problem = "Close is called from a deferred function (" + w.pos(x.Pos()) + "): it also runs when a statement failed to compile"
+						}
+					})
+				}
+			case *ssa.Call:
+				if !isClose(x.Common()) {
+					return
+				}
+
+				nClose++
+
+				// from this Close, no return of a non-nil statement error
+				bad := pathAvoiding(in, nil, func(ssa.Instruction) bool { return false }, func(i ssa.Instruction) bool {
+					ret, ok := i.(*ssa.Return)
+					if !ok {
+						return false
+					}
+
+					// returns the result of this very Close call: fine
+					for _, v := range retResults(ret) {
+						if ex, ok := resolveLocal(v).(*ssa.Extract); ok && ex.Tuple == ssa.Value(x) {
+							return false
+						}
+					}
+
+					return !retMayBeNilError(ret)
+				})
+
+				if bad != nil {
+					problem = "Close at " + w.pos(x.Pos()) + " is followed by a return of a compile error (" + w.pos(bad.Pos()) + ")"
+				}
+			}
+		})
+
+		switch {
+		case problem != "":
+			r.Violate("R-C13-4", key, w.pos(cf.Pos()), problem)
+		case nClose == 0:
+			r.Violate("R-C13-4", key, w.pos(cf.Pos()), "Compile no longer closes the compiler")
+		default:
+			r.Discharge("R-C13-4", key, w.pos(cf.Pos()), "closed only by the final return c.Close()")
+		}
+	}
+
 	// ---- R-C13-3
 	tokenT, _ := lookupObj(tp, "Token").(*types.TypeName)
 	if tokenT == nil {
